@@ -434,6 +434,7 @@ def regenerate(prop=None):
     f, _ = gen_inplace()
     fails += f
     from . import translate_weights; fails += translate_weights.gen_weight_exprs(_write)[0]     # C09: Gen/WeightExprs.lean
+    fails += __import__(__package__ + '.translate_loops', fromlist=['gen_loops']).gen_loops()[0]     # Gen/Loops (C01 / C09; the driver links it)
     # the registry needs one probe call per method: regenerated by the checks whose theorems read it (and by --setup)
     if prop in (None, 'C01', 'C02') or not os.path.exists(os.path.join(common.LEAN, 'PbVerif', 'Gen', 'Registry.lean')):
         f, _ = gen_registry()
